@@ -18,7 +18,7 @@ PARTIAL = (
     "Operations-on-view = operations-on-deep-copy is proved for the whole-matrix writes (Reset, SetIdentity, Set and "
     "element-wise ops with independent operands) and for reads; for the remaining modelled operations (products, swaps, "
     "permutations, export/JSON) it follows from their going through index only and is decided by the exhaustive "
-    "implementation-level hunt, not by a theorem. Known findings (F-ASVEC, F-TIP-T, F-SPITER, F-SPT, F-SPT-REF, F-IJ-T) "
+    "implementation-level hunt, not by a theorem. Known findings (F-ASVEC, F-SPITER, F-SPT, F-SPT-REF, F-IJ-T) "
     "are excluded from the universally quantified statements and refuted by witness lemmas instead.")
 
 
